@@ -92,6 +92,7 @@ public:
     ::std::vector<uint64_t> sched;     // explicit draws, used first
     unsigned stick = 0;                // 0..255
     unsigned spur = 0;                 // spurious wake-up budget
+    bool tail_zero = false;            // draws beyond `sched` take alternative 0 instead of the PRNG
     size_t max_steps = 20000;
     ::std::function<void(const ::std::vector<Blocked>&)> on_stuck;
     // called on the acting logical thread right after an event was logged
@@ -101,6 +102,7 @@ public:
     End end = End::Done;
     ::std::vector<::std::string> trace;
     ::std::vector<uint64_t> resolved;  // explicit schedule that reproduces the run (256*index+255 per draw)
+    ::std::vector<uint32_t> resolved_n; // number of alternatives at each draw (for systematic exploration)
     size_t steps = 0;
 
     void name(const void* p, const ::std::string& n) { names_[p] = n; }
@@ -172,6 +174,7 @@ private:
 
     uint64_t draw() {
         if (sched_pos_ < sched.size()) return sched[sched_pos_++];
+        if (tail_zero) return 255;
         uint64_t z = (rng_ += 0x9e3779b97f4a7c15ULL);
         z = (z ^ (z >> 30)) * 0xbf58476d1ce4e5b9ULL;
         z = (z ^ (z >> 27)) * 0x94d049bb133111ebULL;
@@ -240,6 +243,7 @@ inline int Sched::pick(LThread* last) {
         next = opts[idx];
     }
     resolved.push_back(256 * idx + 255);
+    resolved_n.push_back(static_cast<uint32_t>(opts.size()));
     return next;
 }
 
@@ -287,6 +291,7 @@ inline End Sched::run(::std::function<void()> main_fn) {
     th_.clear();
     trace.clear();
     resolved.clear();
+    resolved_n.clear();
     names_.clear();
     spin_vars_.clear();
     steps = 0;
@@ -479,6 +484,7 @@ inline void Sched::cv_notify_one(const void* obj, CvState* cv) {
         uint64_t c = draw();
         size_t idx = (c >> 8) % cv->waiters.size();
         resolved.push_back(256 * idx + 255);
+        resolved_n.push_back(static_cast<uint32_t>(cv->waiters.size()));
         woken = cv->waiters[idx];
         cv->waiters.erase(cv->waiters.begin() + idx);
     }
@@ -513,6 +519,37 @@ inline void Sched::atomic_post(Op op, const void* obj, long long val) {
     const char* n = op == Op::Load ? ":ld(" : op == Op::Store ? ":st(" : ":rmw(";
     log(::std::to_string(self_()->id) + n + name_of(obj) + ")=" + ::std::to_string(val));
     event(op, obj, val);
+}
+
+
+// Systematic (stateless, depth-first) exploration of all schedules of a scenario: `run_once(sched)` must run the
+// scenario with Sched::sched = sched and Sched::tail_zero = true and return true when the run violated the
+// property.  Explores until the schedule tree is exhausted, `max_runs` is reached or a violation is found.
+struct ExploreResult { uint64_t runs = 0; bool complete = false; bool violated = false; ::std::vector<uint64_t> witness; };
+
+template <typename RunOnce>
+ExploreResult explore(RunOnce run_once, uint64_t max_runs) {
+    ExploreResult res;
+    ::std::vector<uint64_t> prefix;
+    for (;;) {
+        bool bad = run_once(prefix);
+        ++res.runs;
+        Sched& S = Sched::get();
+        ::std::vector<uint64_t> path = S.resolved;
+        ::std::vector<uint32_t> width = S.resolved_n;
+        if (bad) { res.violated = true; res.witness = path; return res; }
+        // next schedule in depth-first order: bump the deepest choice that has an untried alternative
+        size_t i = path.size();
+        while (i > 0) {
+            uint64_t idx = (path[i - 1] - 255) / 256;
+            if (idx + 1 < width[i - 1]) break;
+            --i;
+        }
+        if (i == 0) { res.complete = true; return res; }
+        prefix.assign(path.begin(), path.begin() + static_cast<long>(i));
+        prefix[i - 1] += 256;
+        if (res.runs >= max_runs) return res;
+    }
 }
 
 }  // namespace detsched
